@@ -9,6 +9,7 @@ NORMAL = "str_case(self, str_strip_of(self, value))"
 
 
 def register(reg):
+    register_virtual(reg)
     reg.refine("fields.string_field:StringField._validate", "core:Field._validate",
                defs={"accepts_type": (["f", "r"], STR_ACCEPTS)},
                returns="str",
@@ -22,3 +23,7 @@ def register(reg):
                    "C05.rejected-only-if-a-constraint-fails": "not (typeis(value, 'str') and accepts_type(self, %s))" % NORMAL,
                    "C05.deterministic-and-pure": "heap_unchanged()",
                })
+
+
+def register_virtual(reg):
+    reg.refine("fields.virtual_field:VirtualField.__getval__", "core:BaseField.__getval__")
